@@ -18,13 +18,34 @@ package postgresql
 
 import (
 	"context"
+	"errors"
+	"fmt"
 
 	pg_query "github.com/cossacklabs/pg_query_go/v5"
+	"github.com/cossacklabs/pg_query_go/v5/parser"
 	"github.com/sirupsen/logrus"
 
 	"github.com/cossacklabs/acra/decryptor/base"
 	"github.com/cossacklabs/acra/logging"
 )
+
+// ErrParseQuery is returned by ParseQuery for a statement the PostgreSQL parser does not accept
+var ErrParseQuery = errors.New("can't parse SQL statement")
+
+// ParseQuery parses the statement with the PostgreSQL parser. The parser's own error message quotes the token
+// the error was found at ("syntax error at or near ..."), which may be a value from the statement; errors returned
+// from here are written to logs, so only the position is kept.
+func ParseQuery(query string) (*pg_query.ParseResult, error) {
+	result, err := pg_query.Parse(query)
+	if err != nil {
+		var parseErr *parser.Error
+		if errors.As(err, &parseErr) {
+			return nil, fmt.Errorf("%w: error at position %d", ErrParseQuery, parseErr.Cursorpos)
+		}
+		return nil, ErrParseQuery
+	}
+	return result, nil
+}
 
 // OnQueryObject interface for result of OnQuery call
 type OnQueryObject interface {
@@ -42,7 +63,7 @@ func (obj *onQueryObject) Statement() (*pg_query.ParseResult, error) {
 	if obj.statement != nil {
 		return obj.statement, nil
 	}
-	return pg_query.Parse(obj.query)
+	return ParseQuery(obj.query)
 }
 
 // Query return stored query or encode statement to string
